@@ -501,10 +501,24 @@ fn rand_coption_key(rng: &mut Rng) -> solana_program_option::COption<Pubkey> {
     }
 }
 
+/// addresses with a meaning in the token ecosystem (a parser has no business treating them specially, which is the point)
+fn special_key(rng: &mut Rng) -> Pubkey {
+    match rng.below(7) {
+        0 => spl_generic_token::token::native_mint::id(),
+        1 => spl_token_2022_interface::native_mint::id(),
+        2 => Pubkey::default(),
+        3 => token_id(),
+        4 => token22_id(),
+        5 => spl_generic_token::associated_token_account::id(),
+        _ => Pubkey::new_from_array([0xff; 32]),
+    }
+}
+fn some_key(rng: &mut Rng) -> Pubkey { if rng.chance(1, 6) { special_key(rng) } else { Pubkey::new_from_array(rng.key()) } }
+
 fn packed_account(rng: &mut Rng) -> Vec<u8> {
     let a = SplAccount {
-        mint: Pubkey::new_from_array(rng.key()),
-        owner: Pubkey::new_from_array(rng.key()),
+        mint: some_key(rng),
+        owner: some_key(rng),
         amount: if rng.chance(1, 4) { u64::MAX } else { rng.next() },
         delegate: rand_coption_key(rng),
         state: match rng.below(4) {
